@@ -15,10 +15,14 @@ type vfaultReader struct {
 	data []byte
 	k    int
 	pos  int
+	err  error // the failure reported after k bytes (nil: verrFault)
 }
 
 func (r *vfaultReader) Read(p []byte) (int, error) {
 	if r.pos >= r.k {
+		if r.err != nil {
+			return 0, r.err
+		}
 		return 0, verrFault
 	}
 	n := copy(p, r.data[r.pos:r.k])
@@ -59,7 +63,10 @@ func VH_C18_ReadFaultText() {
 	vassert(err == nil && len(full.Items) == 2, "C18 fixture parses to two cues")
 	vreach("fixture")
 	k := choose(len(doc) + 1) // fault after k bytes, k in 0..len
-	s, err := vc18Read(format, &vfaultReader{data: doc, k: k})
+	// any error other than end-of-file: an anonymous one, or the sentinel some streams (truncated gzip, cut-short HTTP
+	// bodies) fail with
+	ferr := []error{nil, io.ErrUnexpectedEOF, io.ErrClosedPipe}[choose(3)]
+	s, err := vc18Read(format, &vfaultReader{data: doc, k: k, err: ferr})
 	_ = s
 	vassert(err != nil, "C18 read fault is reported (non-nil error), not a shorter cue list")
 	vreach("end")
@@ -90,7 +97,7 @@ func VH_C18_ReadFaultSTL() {
 	data[1024+8] = byte(nondetInt64(0, 24))
 	ks := []int{0, 1, 512, 1023, 1024, 1025, 1024 + 64, len(data) - 1}
 	k := ks[choose(len(ks))]
-	_, err := ReadFromSTL(&vfaultReader{data: data, k: k}, STLOptions{})
+	_, err := ReadFromSTL(&vfaultReader{data: data, k: k, err: []error{nil, io.ErrUnexpectedEOF}[choose(2)]}, STLOptions{})
 	vassert(err != nil, "C18 stl read fault is reported")
 	vreach("end")
 }
